@@ -92,6 +92,7 @@ def handle (op : String) (j : Json) : Option Json :=
             Json.mkObj [("lang", true), ("response", resp), ("common", jStrs common),
                         ("group", jStrs group), ("holds", holds)]
         some (Json.mkObj [("model", model), ("spec", spec), ("ambiguous_identity", ambiguousIdentity e),
+                          ("scanner_shape", implicitOne e || barePipe e),
                           ("classes", jStrs (gapClasses Generated.resolverOps e))])
   | _ => none
 
